@@ -17,7 +17,9 @@ def run(ctx):
                 "versions; M2: seeded item sequences (lengths 1..70000, all-zero / all-0xff / embedded-header / random contents, DiskBlockSize "
                 "16..512K so that buffer flushes fall inside frames) are written through the real FileWriter and read through the real FileReader; "
                 "v0 files are read by the real v0 reader; TLC recomputes Encode() with the spec operators and compares the file byte for byte, "
-                "the decoded items, end-of-stream, and reader = writer checksum; KVToBytes/KVFromBytes/CompareKV likewise")
+                "the decoded items, end-of-stream, and reader = writer checksum; streams with one item of 16 MiB or more (the upper bytes of the "
+                "4-byte prefix) are judged by their frame headers at the prescribed offsets, file size and the reader's results; "
+                "KVToBytes/KVFromBytes/CompareKV likewise")
     vlib.stage_specs(ctx.wd, [])
     il, mi = (3, 3) if T else (2, 3)
     cfg = ("SPECIFICATION FSpec\nCONSTANTS\n  Alphabet = {0, 1, 255}\n  MaxItemLen = %d\n  MaxItems = %d\n" % (il, mi) +
@@ -39,7 +41,8 @@ def run(ctx):
     first = None
     for part in range(0, tot, per):
         tr = os.path.join(ctx.wd, "frame_%d.ndjson" % part)
-        p = vlib.run_harness(["frame", "-out", tr, "-dir", ctx.wd, "-seed", vlib.seed() * 1000 + part, "-n", per, "-big"])
+        p = vlib.run_harness(["frame", "-out", tr, "-dir", ctx.wd, "-seed", vlib.seed() * 1000 + part, "-n", per, "-big",
+                              "-huge", (2 if part == 0 else 0) if not T else 4])
         info = json.loads(p.stdout.strip().splitlines()[-1])
         if first is None:
             with open(tr) as f:
